@@ -80,6 +80,63 @@ def arith_tie(group):
                     lambda: py2coq_arith.translate_all(REPO, groups=(group,)), "ArithGen.v", f"Arith{group}Proofs.v", "ArithGen.")
 
 
+def state_tie():
+    """Simulator._update_agents_for_execution (C05): the loop that books a round's fills into the agents' holdings"""
+    import py2coq_state
+    src = os.path.join(REPO, "pams", "simulator.py")
+    return _run_tie("translator:pams/simulator.py(C05 kernel)", src, lambda: py2coq_state.translate_all(REPO), "StateGen.v",
+                    "StateC05Proofs.v", "StateGen.")
+
+
+def holdings_sweep_c05(seed=0, tier="quick", cov=None):
+    """directed search used with the C05 tie: the real Simulator._update_agents_for_execution on small populations and fill lists
+    (self-trades, repeated parties, several markets), against the property text: the buyer pays price x volume and receives volume
+    shares, the seller the opposite, nobody else changes; totals are conserved"""
+    import random
+    from pams.agents import Agent
+    from pams.logs.base import ExecutionLog, Logger
+    from pams.simulator import Simulator
+    out, n = [], 0
+    rnd = random.Random(1000 + seed)
+
+    class A(Agent):
+        def submit_orders(self, markets):
+            return []
+    for trial in range(40 if tier == "quick" else 400):
+        sim = Simulator(prng=random.Random(trial))
+        na, nm = rnd.randint(1, 4), rnd.randint(1, 3)
+        for i in range(na):
+            a = A(agent_id=i, prng=random.Random(i), simulator=sim, name=f"a{i}", logger=Logger())
+            a.cash_amount = float(rnd.randint(0, 4000)) / 4
+            a.asset_volumes = {m: rnd.randint(-5, 50) for m in range(nm)}
+            sim._add_agent(a)
+        logs = [ExecutionLog(market_id=rnd.randrange(nm), time=rnd.randint(0, 9), buy_agent_id=rnd.randrange(na),
+                             sell_agent_id=rnd.randrange(na), buy_order_id=2 * k, sell_order_id=2 * k + 1,
+                             price=float(rnd.randint(1, 800)) / 4, volume=rnd.randint(1, 9)) for k in range(rnd.randint(0, 5))]
+        exp_cash = {i: sim.id2agent[i].cash_amount for i in range(na)}
+        exp_vol = {i: dict(sim.id2agent[i].asset_volumes) for i in range(na)}
+        for lg in logs:
+            exp_cash[lg.buy_agent_id] -= lg.price * lg.volume
+            exp_cash[lg.sell_agent_id] += lg.price * lg.volume
+            exp_vol[lg.buy_agent_id][lg.market_id] += lg.volume
+            exp_vol[lg.sell_agent_id][lg.market_id] -= lg.volume
+        n += 1
+        try:
+            sim._update_agents_for_execution(logs)
+            got_cash = {i: sim.id2agent[i].cash_amount for i in range(na)}
+            got_vol = {i: dict(sim.id2agent[i].asset_volumes) for i in range(na)}
+        except Exception as e:  # noqa
+            got_cash, got_vol = {"raised": repr(e)[:120]}, None
+        if (got_cash, got_vol) != (exp_cash, exp_vol) and len(out) < 3:
+            out.append({"rule": "holdings-equal-endowment-plus-fills", "at": n,
+                        "detail": {"fills": [[lg.market_id, lg.buy_agent_id, lg.sell_agent_id, lg.price, lg.volume] for lg in logs],
+                                   "expected": [exp_cash, exp_vol], "got": [got_cash, got_vol],
+                                   "source": "direct calls of Simulator._update_agents_for_execution"}})
+    if cov is not None:
+        cov["update_agents_direct_calls"] = n
+    return out
+
+
 # ---------------------------------------------------------------------------------------------------------------
 # directed search for a concrete failing input: the real operators on every pair / triple of a small domain,
 # against the ranking as the property states it (market orders first, better price, earlier time, lower id)
